@@ -138,6 +138,9 @@ theorem run_gzip (C : Cfg Z) (ops : List Op) (s : GW Z) (z : Z) (c : Nat)
       | del k =>
         have := ih { dec := .gzip z, hdr := hdel hdr k, down := down, pool := pool } z rfl hs
         simpa [GW.run, GW.step, writesOf, hops, hop] using this
+      | unset k =>
+        have := ih { dec := .gzip z, hdr := hnil hdr k, down := down, pool := pool } z rfl hs
+        simpa [GW.run, GW.step, writesOf, hops, hop] using this
 
 theorem run_plain (C : Cfg Z) (ops : List Op) (s : GW Z) (c : Nat)
     (hp : s.dec = .plain) (hs : s.down.status = some c) :
@@ -176,6 +179,9 @@ theorem run_plain (C : Cfg Z) (ops : List Op) (s : GW Z) (c : Nat)
       | del k =>
         have := ih { dec := .plain, hdr := hdel hdr k, down := down, pool := pool } rfl hs
         simpa [GW.run, GW.step, writesOf, hops, hop] using this
+      | unset k =>
+        have := ih { dec := .plain, hdr := hnil hdr k, down := down, pool := pool } rfl hs
+        simpa [GW.run, GW.step, writesOf, hops, hop] using this
 
 theorem bareRun_decided (C : Cfg Z) (cf : Bool) (ops : List Op) (h : Hdr) (d : Down) (c : Nat) (hs : d.status = some c) :
     bareRun C cf (h, d) ops = (hops ops h, { d with body := d.body ++ (writesOf ops).flatten }) := by
@@ -198,6 +204,7 @@ theorem bareRun_decided (C : Cfg Z) (cf : Bool) (ops : List Op) (h : Hdr) (d : D
     | set k v => simpa [bareRun, bareStep, writesOf, hops, hop] using ih (hset h k v) d hs
     | add k v => simpa [bareRun, bareStep, writesOf, hops, hop] using ih (hadd h k v) d hs
     | del k => simpa [bareRun, bareStep, writesOf, hops, hop] using ih (hdel h k) d hs
+    | unset k => simpa [bareRun, bareStep, writesOf, hops, hop] using ih (hnil h k) d hs
 
 /-! ### the whole response: before the decision only the header map moves, then `run_gzip`/`run_plain` -/
 
@@ -225,6 +232,7 @@ theorem close_run (C : Cfg Z) (ops : List Op) (hdr : Hdr) (pool : List Z) :
     | set k v => simpa [decision, GW.run, GW.step, hops, hop, writesOf] using ih (hset hdr k v)
     | add k v => simpa [decision, GW.run, GW.step, hops, hop, writesOf] using ih (hadd hdr k v)
     | del k => simpa [decision, GW.run, GW.step, hops, hop, writesOf] using ih (hdel hdr k)
+    | unset k => simpa [decision, GW.run, GW.step, hops, hop, writesOf] using ih (hnil hdr k)
     | fl => simpa [decision, GW.run, GW.step, hops, hop, writesOf] using ih hdr
     | wh code =>
       by_cases hinfo : informational code = true
@@ -287,6 +295,7 @@ theorem bare_obs (C : Cfg Z) (cf : Bool) (ops : List Op) (hdr : Hdr) :
     | set k v => simpa [decision, bareRun, bareStep, hops, hop, writesOf] using ih (hset hdr k v)
     | add k v => simpa [decision, bareRun, bareStep, hops, hop, writesOf] using ih (hadd hdr k v)
     | del k => simpa [decision, bareRun, bareStep, hops, hop, writesOf] using ih (hdel hdr k)
+    | unset k => simpa [decision, bareRun, bareStep, hops, hop, writesOf] using ih (hnil hdr k)
     | fl =>
       cases cf with
       | false => simpa [decision, bareRun, bareStep, hops, hop, writesOf] using ih hdr
@@ -330,6 +339,7 @@ theorem run_without_flush (C : Cfg Z) (ops : List Op) (s : GW Z) :
     | set k v => simpa [GW.run, dropFlush] using ih _
     | add k v => simpa [GW.run, dropFlush] using ih _
     | del k => simpa [GW.run, dropFlush] using ih _
+    | unset k => simpa [GW.run, dropFlush] using ih _
 
 /-! ### the pool -/
 
